@@ -24,8 +24,8 @@ fn variant(i: usize) -> Variant {
         _ => Variant::R6,
     }
 }
-const USER_PW: &[&str] = &["u", "empty", "32-bytes", "40-bytes", "non-ascii"];
-const OWNER_PW: &[&str] = &["o", "same-as-user", "33-bytes"];
+const USER_PW: &[&str] = &["u", "empty", "32-bytes", "40-bytes", "non-ascii", "127-bytes", "128-bytes", "2-byte-char-across-byte-127", "3-byte-char-across-byte-127"];
+const OWNER_PW: &[&str] = &["o", "same-as-user", "33-bytes", "3-byte-char-across-byte-127"];
 const PERMS: &[&str] = &["-4", "-3904", "0"];
 const ID0: &[&str] = &["16-bytes", "1-byte", "empty", "40-bytes", "binary-with-delimiters"];
 const ENCMETA: &[&str] = &["true", "false"];
@@ -43,12 +43,25 @@ fn user_pw(i: usize, utf8: bool) -> Vec<u8> {
         1 => vec![],
         2 => b"0123456789abcdef0123456789abcdef".to_vec(),
         3 => b"0123456789abcdef0123456789abcdefXYZ45678".to_vec(),
-        _ => {
+        4 => {
             if utf8 {
                 "pä".as_bytes().to_vec()
             } else {
                 vec![b'p', 0xe4]
             }
+        }
+        // long passwords: revisions 5 and 6 use the first 127 bytes of the UTF-8 form, the older ones the first 32 bytes
+        5 => (0..127).map(|i| b'a' + (i % 26) as u8).collect(),
+        6 => (0..128).map(|i| b'A' + (i % 26) as u8).collect(),
+        7 => {
+            let mut v: Vec<u8> = (0..126).map(|i| b'a' + (i % 26) as u8).collect();
+            v.extend_from_slice(if utf8 { "éxyz".as_bytes() } else { &[0xe9, b'x', b'y', b'z'] });
+            v
+        }
+        _ => {
+            let mut v: Vec<u8> = (0..126).map(|i| b'k' + (i % 10) as u8).collect();
+            v.extend_from_slice(if utf8 { "€tail".as_bytes() } else { &[0x80, b't', b'a', b'i', b'l'] });
+            v
         }
     }
 }
@@ -100,7 +113,12 @@ fn build_with(ch: &mut Chooser, sweep: Option<(usize, usize)>) -> Built {
     let mut opw: Vec<u8> = match oi {
         0 => b"o".to_vec(),
         1 => upw.clone(),
-        _ => b"O123456789abcdef0123456789abcdefZ".to_vec(),
+        2 => b"O123456789abcdef0123456789abcdefZ".to_vec(),
+        _ => {
+            let mut v: Vec<u8> = (0..125).map(|i| b'O' + (i % 7) as u8).collect();
+            v.extend_from_slice(if utf8 { "€€".as_bytes() } else { &[0x80, 0x80] });
+            v
+        }
     };
     if let Some((_, k)) = sweep {
         // password sweep: the key derivations of revisions 5 and 6 run a data-dependent number of rounds
@@ -368,7 +386,7 @@ pub fn run(tier: Tier, _seed: u64, tally: &mut Tally) -> CheckMeta {
     CheckMeta {
         prop: "C06",
         level: "model_checking",
-        rule: format!("all 17 handler variants (R2; R3 at every key length 40..128; R4 with /V2 and /AESV2; R5; R6) as a free dimension x <= {} deviations among user password (5), owner password (3), /P (3), /ID[0] (5), EncryptMetadata (2), /Encrypt direct or indirect, object number (5, up to 999990), generation (0, 1, 65535), plaintext length (0, 1, 15, 16, 17, 32, 33), string spelling, stream filter, xref format with a compressed string; every document is produced by the independent encryptor, opened with the user and with the owner password (every string, stream, metadata stream and the /Encrypt dictionary's own strings compared with the plaintext) and with up to four wrong passwords (must be InvalidPassword). Password sweep: {} key-derivation variants x {} user/owner password pairs (everything else default), since the revision 5/6 hashes run a password-dependent number of rounds. Distinct by file hash x password.", bound, PW_VARIANTS.len(), N_PASSWORDS),
+        rule: format!("all 17 handler variants (R2; R3 at every key length 40..128; R4 with /V2 and /AESV2; R5; R6) as a free dimension x <= {} deviations among user password (9, incl. 127/128 bytes and multi-byte characters across byte 127), owner password (4), /P (3), /ID[0] (5), EncryptMetadata (2), /Encrypt direct or indirect, object number (5, up to 999990), generation (0, 1, 65535), plaintext length (0, 1, 15, 16, 17, 32, 33), string spelling, stream filter, xref format with a compressed string; every document is produced by the independent encryptor, opened with the user and with the owner password (every string, stream, metadata stream and the /Encrypt dictionary's own strings compared with the plaintext) and with up to four wrong passwords (must be InvalidPassword). Password sweep: {} key-derivation variants x {} user/owner password pairs (everything else default), since the revision 5/6 hashes run a password-dependent number of rounds. Distinct by file hash x password.", bound, PW_VARIANTS.len(), N_PASSWORDS),
         assumptions: vec!["the encryptor's key derivation is validated at start-up against the ten third-party encrypted fixtures in files/".into(), "public-key handlers, /StrF != /StmF and named /Crypt filters are outside the property".into()],
         exhaustive: true,
         bounds: json!({"deviations": bound}),
